@@ -36,8 +36,10 @@ Definition OT_OPAQUE_DATA := 8.
 
 (* One row of the store, as the kmip.pie object exposes it to Locate.  Fields a
    class does not have are irrelevant for that class (has_* below says which
-   Python classes carry which attribute; reading a missing one is an
-   AttributeError, i.e. GENERAL_FAILURE). *)
+   Python classes carry which attribute; algorithm and length are read with
+   getattr(..., None), i.e. absent on other classes; reading a missing state,
+   mask or certificate type would be an AttributeError, i.e. GENERAL_FAILURE -
+   the rule table makes those applicable only to classes that have them). *)
 Record obj := mkObj {
   o_uid : Z;
   o_type : Z;                      (* enums.ObjectType value *)
@@ -78,7 +80,7 @@ Inductive afilter :=
 | FUid (s : string)
 | FSensitive (b : bool)
 | FDate (d : Z)
-| FOther (name : string).               (* an attribute for which _get_attribute_from_managed_object answers None *)
+| FOther (name : string).               (* an attribute for which _get_attribute_from_managed_object answers None, or an unknown name *)
 
 Definition filter_name (f : afilter) : string :=
   match f with
